@@ -69,7 +69,7 @@ SCHED_NOTE = "Schedules: delay-bounded (all schedules with at most d deviations 
 SPECS["C01"] = {
     "level": "model_checking",
     "groups": [dict(LIBGO, entries=[
-        {"name": "VerifC01_RegistryStep", "quick": {"params": [0, 1, 2], "bound": 3}, "thorough": {"params": [0, 1, 2], "bound": 4},
+        {"name": "VerifC01_RegistryStep", "native": False, "quick": {"params": [0, 1, 2], "bound": 3}, "thorough": {"params": [0, 1, 2], "bound": 4},
          "expect_reach": ["end", "duplicate", "registered", "unregistered", "delivered", "slot-full", "unknown", "not-a-number"]},
         {"name": "VerifC01_AdapterCorrelation", "native": False, "quick": {"params": [0, 1, 2], "flags": ["-preempt", "1"]},
          "thorough": {"params": [0, 1, 2, 3], "flags": ["-preempt", "2", "-par", "4"], "procs": 4}, "flags": [],
@@ -84,7 +84,7 @@ SPECS["C01"] = {
 SPECS["C06"] = {
     "level": "model_checking",
     "groups": [dict(LIBGO, entries=[
-        {"name": "VerifC06_DispatchNeverBlocks", "quick": {"params": [0], "bound": 3}, "thorough": {"params": [0], "bound": 4}, "expect_reach": ["end", "slot-full", "slot-empty", "unknown"]},
+        {"name": "VerifC06_DispatchNeverBlocks", "native": False, "quick": {"params": [0], "bound": 3}, "thorough": {"params": [0], "bound": 4}, "expect_reach": ["end", "slot-full", "slot-empty", "unknown"]},
         {"name": "VerifC06_AdapterNoHOL", "native": False, "quick": {"params": [1, 2, 3, 4], "flags": ["-preempt", "1"], "procs": 2},
          "thorough": {"params": [3, 4, 5], "flags": ["-preempt", "2", "-par", "5"], "procs": 3}, "expect_reach": ["end", "triple-duplicate"]},
     ])],
@@ -99,7 +99,7 @@ SPECS["C17"] = {
     "groups": [dict(LIBGO, entries=[
         {"name": "VerifC17_OpIDsUnique", "native": False, "quick": {"params": [0], "flags": ["-preempt", "2"]}, "thorough": {"params": [0, 1], "flags": ["-preempt", "2", "-par", "8"]}},
         {"name": "VerifC17_SharedContext", "native": False, "quick": {"params": [0], "flags": ["-preempt", "2"]}, "thorough": {"params": [0], "flags": ["-preempt", "3"]}, "expect_reach": ["end", "two-writers"]},
-        {"name": "VerifC17_CloneIndependent", "quick": {"params": [0, 1], "bound": 1}, "thorough": {"params": [0, 1], "bound": 2}},
+        {"name": "VerifC17_CloneIndependent", "quick": {"params": [0, 1], "bound": 1}, "thorough": {"params": [0, 1], "bound": 2}, "expect_reach": ["end", "empty-response-headers"]},
     ])],
     "level_text": "(a) From an ARBITRARY value of the op-id counter (symbolic uint64), 2 (3) goroutines that create / Clone() / frugal.Clone() contexts concurrently plus one sequential context: all op ids pairwise different and different from every id issued before (decided on the uint64 level; strconv format/parse of the symbolic id is an injective tag), and the counter is only touched through sync/atomic (watched cell). (b) Two goroutines applying any pair of FContext operations to one shared context: every access to the three maps holds the context mutex in the right mode (lock-discipline monitor), last-writer-wins. (c) Clone (method and package function): starts equal except for a fresh op id, and a mutation of either side (request/response header, timeout, ephemeral property) is invisible to the other. Outside: >3 goroutines; plain data races on fields other than the watched counter and guarded maps are not monitored.",
     "level_note": "Trusted: go/ssa, gose interpreter and scheduler model, z3. " + SCHED_NOTE,
@@ -202,10 +202,11 @@ SPECS["C18"] = {
     "groups": [dict(PARSER, entries=[
         {"name": "VerifC18_Fields", "native": False, "quick": {"params": [0, 1, 2, 3, 4], "bound": 0, "procs": 5}, "thorough": {"params": list(range(20)), "bound": 0, "procs": 10, "timeout": 5000}, "expect_reach": ["end", "must-fail", "must-pass", "unspecified"]},
         {"name": "VerifC18_FieldsNested", "native": False, "tiers": ["thorough"], "thorough": {"params": [0, 1, 2, 3, 4], "bound": 1, "procs": 5, "timeout": 5000}, "expect_reach": ["end", "must-fail", "must-pass"]},
+        {"name": "VerifC18_TypedefShapes", "native": False, "quick": {"params": [0, 1, 2, 3], "bound": 0, "procs": 2}, "thorough": {"params": [0, 1, 2, 3], "bound": 0, "procs": 2}, "expect_reach": ["end", "must-fail", "must-pass"]},
         {"name": "VerifC18_Services", "native": False, "quick": {"params": [0, 1], "bound": 0, "procs": 2, "flags": ["-par", "3"]}, "thorough": {"params": [0, 1], "bound": 0, "procs": 2, "flags": ["-par", "3"]}, "expect_reach": ["end", "must-fail", "must-pass", "unspecified"]},
         {"name": "VerifC18_EnumsScopes", "native": False, "quick": {"params": [0, 1, 2], "bound": 0, "procs": 3, "flags": ["-par", "2"]}, "thorough": {"params": [0, 1, 2], "bound": 0, "procs": 3, "flags": ["-par", "2"]}, "expect_reach": ["end", "must-fail", "must-pass", "unspecified"]},
     ])],
-    "level_text": "Bounded symbolic execution of the real Auditor.Audit (checkScopes, checkScopePrefix, normalizeScopePrefix, checkOperations, checkNamespaces, checkConstants, checkEnums, checkEnumValues, checkStructLike, checkServices, checkServiceMethods, checkFields, makeFieldsMap, checkType, Frugal.UnderlyingType) on PAIRS OF MODELS built by the harness (ParseFrugal is redirected; the text-level audit goes through the PEG parser and is outside): (1) field lists of a struct / exception / union / method arguments / throws clause with symbolic field ids (1..3), symbolic requiredness, presence of each field, type from {two scalars, a typedef whose meaning differs between old and new, a struct} (thorough: list/map nesting one level, and a second field on either side); (2) services: service kept/removed, method kept/removed, oneway flags, return types incl. void, extends in {none, Base, Other}, throws present/absent; (3) enums with symbolic value numbers, scopes with 6 prefixes x kept/removed operation x operation type, namespaces/constants. A three-valued reference oracle written from the statement decides MUST-FAIL (removed/retyped field, argument, method, operation, service, scope, struct; requiredness change; added required field; removed enum value; changed prefix modulo variable names; oneway change; changed or removed base; exception-set change on a void method) / MUST-PASS (identical, renames, added optional/default fields, renamed prefix variables, namespace/constant changes, additions) / UNSPECIFIED (removing an optional field, adding 'extends', removing a whole enum, exception-set change on a non-void method: counted, not asserted). Outside: audit of IDL text (parser), includes across files, deeper nesting.",
+    "level_text": "Bounded symbolic execution of the real Auditor.Audit (checkScopes, checkScopePrefix, normalizeScopePrefix, checkOperations, checkNamespaces, checkConstants, checkEnums, checkEnumValues, checkStructLike, checkServices, checkServiceMethods, checkFields, makeFieldsMap, checkType, Frugal.UnderlyingType) on PAIRS OF MODELS built by the harness (ParseFrugal is redirected; the text-level audit goes through the PEG parser and is outside): (1) field lists of a struct / exception / union / method arguments / throws clause with symbolic field ids (1..3), symbolic requiredness, presence of each field, type from {two scalars, a typedef whose meaning differs between old and new, a struct} (thorough: list/map nesting one level, a typedef that stands for a container, and a second field on either side); (1b) a typedef standing for a scalar, a list or a map whose element types differ between old and new, used as field / return / argument element / operation type; (2) services: service kept/removed, method kept/removed, oneway flags, return types incl. void, extends in {none, Base, Other}, throws present/absent; (3) enums with symbolic value numbers, scopes with 6 prefixes x kept/removed operation x operation type, namespaces/constants. A three-valued reference oracle written from the statement decides MUST-FAIL (removed/retyped field, argument, method, operation, service, scope, struct; requiredness change; added required field; removed enum value; changed prefix modulo variable names; oneway change; changed or removed base; exception-set change on a void method) / MUST-PASS (identical, renames, added optional/default fields, renamed prefix variables, namespace/constant changes, additions) / UNSPECIFIED (removing an optional field, adding 'extends', removing a whole enum, exception-set change on a non-void method: counted, not asserted). Outside: audit of IDL text (parser), includes across files, deeper nesting.",
     "level_note": "Trusted: go/ssa, gose interpreter, z3; fmt/reflect.DeepEqual are engine boundaries; ParseFrugal is redirected to the harness models, so counterexamples are confirmed by pinned concrete re-execution in the engine rather than natively. The oracle's classification of the unspecified edits is stated above and never raises an alarm.",
     "bounds": {"quick": "one general field slot per side; scalar/typedef/struct types", "thorough": "two field slots per side; one container level"},
     "assumptions": [],
